@@ -1845,6 +1845,11 @@ DLLIMPORT char *cfg_searchpath(cfg_searchpath_t *p, const char *file)
 	if ((fullpath = cfg_searchpath(p->next, file)) != NULL)
 		return fullpath;
 
+	/* running out of memory is not "not found": this directory must not
+	 * win because an earlier one could not be looked at */
+	if (p->next && errno == ENOMEM)
+		return NULL;
+
 	if ((fullpath = cfg_make_fullpath(p->dir, file)) == NULL)
 		return NULL;
 
@@ -1858,6 +1863,7 @@ check:
 #endif
 
 	free(fullpath);
+	errno = ENOENT;
 	return NULL;
 }
 
